@@ -56,8 +56,8 @@ Print Assumptions C17_no_crypto_before_pass.
 
 (* (L) nobody waits forever, finite-horizon form of termination under weak fairness: from ANY
    reachable state (after any sch0), in every continuation in which every thread is scheduled at
-   least ST_B = 40 times (sch1: any order, anything interleaved) and then thread t at least
-   ST_K = 24 times (sch2, anything interleaved), t has returned *)
+   least ST_B = 48 times (sch1: any order, anything interleaved) and then thread t at least
+   ST_K = 32 times (sch2, anything interleaved), t has returned *)
 Theorem C17_nobody_waits_forever : forall (n : nat) (a s : N) (sch0 sch1 sch2 : list nat) (t : nat),
   bool_outcome a -> bool_outcome s -> t < n ->
   (forall u, u < n -> ST_B <= steps_of sch1 u) -> ST_K <= steps_of sch2 t ->
